@@ -100,7 +100,10 @@ def run(ctx):
         # loop exits: end of iteration and the -quit break
         exits = []
         for n in gg.nodes("next"):
-            exits += [(n, b) for l, b in gg.out.get(n, []) if l.split(",")[0] != "1"]
+            # the walker is exhausted; an entry held back for -depth (deferred slot) may still be fetched and evaluated first
+            exits += [(n, b) for l, b in gg.out.get(n, []) if l.split(",")[0] != "1" and C.base(b) != "deferred_take"]
+        for n in gg.nodes("deferred_take"):
+            exits += [(n, b) for l, b in gg.out.get(n, []) if l.split(",")[0] == "0"]
         for n in gg.nodes("should_quit"):
             exits += [(n, b) for l, b in gg.out.get(n, []) if l.split(",")[0] == "else"]
         ctx.floor("R2", "loop exits of the walk (end of iteration, -quit)", len(exits), 2)
@@ -119,7 +122,7 @@ def run(ctx):
         ctx.ob("R2", "in-loop-finished_dir", len(loop_fd) == 1 and all(C.base(x) == "matches" for x in gg.succ(loop_fd[0])),
                "leaving a directory must be reported inside the loop before the entry that left it is evaluated; in-loop finished_dir nodes %s successors %s" % (loop_fd, [gg.succ(n) for n in loop_fd]), fn=pf, how="event graph")
         # dir operands: the previous parent (Option::take of current_dir), guard: parent differs
-        cur = pf.locals_named("current_dir")
+        cur = C.find_local(pf, "current_dir", ty="std::option::Option<std::path::PathBuf>")
         for b, t in pf.calls():
             r = C.walk_role(t)
             if r == "finished_dir":
@@ -154,6 +157,19 @@ def run(ctx):
                             if eff_ne and cur[0] in subj:
                                 ok = True
                     ctx.ob("R2", "flush-when-parent-changes", ok, "the in-loop finished_dir must be guarded by `parent of this entry != current_dir`; guards: %s" % prim.guards_fmt(gs), fn=pf, where=prim.site(pf, b), how="dominating guard")
+                    # ... and by nothing else inside the iteration: the flush may not additionally depend on depth, type, counters, ...
+                    io_blocks = [nb for nb, tt in pf.calls() if C.walk_role(tt) == "io_new" and pf.dominates(nb, b)]
+                    extra = []
+                    for gd in gs:
+                        if not io_blocks or not pf.dominates(io_blocks[-1], gd["bb"]):
+                            continue            # loop/entry guards before the per-entry state is created
+                        pr = gd["pred"].strip()
+                        if pr.k == "call" and pr.a["name"] in ("ne", "eq") and cur[0] in [prim.user_local_behind(pf, a) for a in pr.a["term"].args]:
+                            continue
+                        if pr.k == "discr" and any(c.a["name"] == "take" for c in pr.call_nodes()):
+                            continue
+                        extra.append(pr.fmt()[:100])
+                    ctx.ob("R2", "flush-depends-only-on-parent-change", not extra, "the in-loop finished_dir additionally depends on %s: a directory change that does not satisfy it (e.g. two directories whose first evaluated entries have the same depth under -mindepth) is not reported and -execdir batches mix directories" % extra, fn=pf, where=prim.site(pf, b), how="dominating guards inside the iteration")
         # every MatcherIO handed to a lifecycle call has its exit code read afterwards
         io_defs = {}
         for b, t in pf.calls():
@@ -274,7 +290,7 @@ def run(ctx):
                 v = t.args[1].const_value()
                 ctx.ob("R3", "exit-code-nonzero@matches", isinstance(v, int) and v != 0, "set_exit_code(%s)" % v, fn=mm, where=prim.site(mm, b), how="constant argument")
         # path form
-        pl = mm.locals_named("path_to_file")
+        pl = C.find_local(mm, "path_to_file", ty="std::path::PathBuf")
         if not pl:
             ctx.missing("R3", "path_to_file in MultiExecMatcher::matches")
         else:
@@ -294,6 +310,7 @@ def run(ctx):
         g = C.G(prim.event_graph(rc, role))
         st = g.nodes("status")
         ok = len(st) == 1
+        ctx.ob("R3", "run_command-always-runs", len(st) == 1 and g.succ("ENTRY") == st, "run_command must run the batch it is given on every path (an early return silently drops the paths collected in it); events: %s" % g.fmt(), fn=rc, how="event graph")
         if ok:
             okb = g.succ(st[0], "0")
             erb = g.succ(st[0], "1")
